@@ -93,6 +93,10 @@ def neighbours(c, r):
         i = r.randrange(len(ws))
         resplit = ws[:i] + ([ws[i][:1], ws[i][1:]] if len(ws[i]) > 1 else [ws[i]]) + ws[i + 1:]
         joined = (ws[:i] + [ws[i] + ws[i + 1]] + ws[i + 2:]) if i + 1 < len(ws) else ["".join(ws)]
+        if r.random() < 0.3:
+            # words are compared as text: digit runs of different lengths (file2 / file10) are NOT compared as numbers
+            stem = r.choice(["file", "v", "x1y", ""])
+            return [ws[:i] + [stem + n_] + ws[i:] for n_ in r.sample(["2", "10", "9", "100", "09"], 3)]
         return [ws] + r.sample([ws + ["zz"], ["aa"] + ws, resplit, joined], r.randint(2, 3))
     b = 8 * 1024 ** r.randint(0, 4) * r.randint(0, 9)
     return [b, b + 8, b + 8 * 1024]
